@@ -13,48 +13,48 @@ CHECKS = {
  "C02": ("exploration", "reference staged-elimination monitor + recover() totality monitor, trace on/off differential",
          "Each generated request (incl. an adversarial path/header pool) is dispatched with tracing off and on; a monitor checks no panic, <=1 invocation, and that the observed class (invoke/404/405+Allow/415/406) is admitted by a reference staged elimination over the best-matching root. Held on what was observed.",
          "Exact-class verdicts only where the reference is determinate (three-valued); weak mode for incomparable roots / RouterJSR311 variable roots as the property states.", "DESIGN §6 C02"),
- "C03": ("exploration", "metamorphic monitor: registration-order permutations + alone-eligibility specificity oracle using the real code",
-         "The same table is built under several registration orders and every request must get the same outcome; for each selected route/root the real code itself (container with only the competitor) says which competitors are eligible, and none may dominate the selection. Plus pairs of CurlyRouter root paths over all literal/variable shapes of 1-5 segments, registered in both orders and probed with URLs both match.", "Domain restricted exactly as the property excludes (same-shape variable roots, same-method templates differing only in names).", "DESIGN §6 C03"),
+ "C03": ("exploration", "metamorphic monitor: registration-order permutations (incl. a history-built order) + alone-eligibility specificity oracle using the real code, with the executable route-declaration reference as second opinion on eligibility",
+         "The same table is built under several registration orders and every request must get the same outcome; for each selected route/root the real code itself (container with only the competitor) says which competitors are eligible - and so does the executable reference of the route declaration where its answer is determinate -, and none may dominate the selection. Every second table is also built through a history (a route per dynamic-routes WebService registered only after the request list was served once with a stand-in in its place). Plus pairs of CurlyRouter root paths over all literal/variable shapes of 1-5 segments, registered in both orders and probed with URLs both match.", "Domain restricted exactly as the property excludes (same-shape variable roots, same-method templates differing only in names).", "DESIGN §6 C03"),
  "C04": ("exploration", "reference-binding monitor inside invoked handlers + substitution round-trip law",
          "PathParameters() seen by every invoked generated handler is compared with the reference binding of the URL text and substituted back into the template.", "RouterJSR311 wildcard values compared modulo a trailing slash.", "DESIGN §6 C04"),
  "C05": ("exploration", "reference Accept ranker monitor on written entities + whitespace/repetition metamorphic relations",
-         "For generated Produces lists, Accept headers (ranges, q-values, parameters, OWS, */*), default-content-type settings and registered-writer sets, the Content-Type and body written by WriteEntity are compared with an executable ranker; decorated spellings and repetitions must agree.",
+         "For generated Produces lists, Accept headers (ranges, q-values, parameters, OWS, */*), default-content-type settings and registered-writer sets, the Content-Type and body written by WriteEntity are compared with an executable ranker; decorated spellings and repetitions must agree; handlers that overwrite Accept in the request header map before writing; types registered while clients already ask for them.",
          "Accept grammar limited to well-formed q-values and full media types plus */* (as the property states).", "DESIGN §6 C05"),
  "C06": ("exploration", "offline event-log checker (order, exactly-once, stack discipline, hand-over identity) over sequential and concurrent histories; race detector on",
          "Generated filter configurations (0-3 per level; pass/short-circuit/replace/attribute/middleware adapter) are driven by request sequences and 16 concurrent goroutines; the recorded per-request log must be exactly the prefix of [container.., service.., route.., handler] with reversed exits and intact hand-over. A fixed scenario adds a filter in the style of http.TimeoutHandler (returns before the chain it started has finished): every element still runs once, in order.",
-         "Observation through the filters/handlers themselves (public API).", "DESIGN §6 C06"),
+         "Observation through the filters/handlers themselves (public API). The asynchronous scenario also runs with a plain net/http middleware behind HttpMiddlewareHandlerToFilter (the handler's late output must reach the writer the middleware passed on); filters that write an error status and pass control on.", "DESIGN §6 C06"),
  "C07": ("fault_enumeration", "recording-writer monitor over an enumerated switch/outcome matrix: decode-complete-stream == written log, label and enablement checks, identity twin",
-         "Enumerates entry point x container switch x route override x Accept-Encoding x pre-set Content-Encoding x provider x outcome kind (success, routing errors, panic before/after output) x payload/chunking (plus explicit statuses, forwarding handlers, reused write buffers, io.WriteString) and checks each response against the bytes the handlers logged; every 5th ServeHTTP cell runs behind a real net/http server and is read by an http.Client.",
+         "Enumerates entry point x container switch x route override x Accept-Encoding x pre-set Content-Encoding x provider x outcome kind (success, routing errors, panic before/after output) x payload/chunking (plus explicit statuses, forwarding handlers that add a footer afterwards, handlers that try to hijack first, reused write buffers, io.WriteString, io.Copy from a source returning data with io.EOF) and checks each response against the bytes the handlers logged; every 5th ServeHTTP cell runs behind a real net/http server and is read by an http.Client.",
          "The former known finding D7 (ServeHTTP + container switch on + route switch off) was repaired in /repo (fix 2cc8b80, KNOWN_FINDINGS.txt); its revert is part of the seeded regression set.", "DESIGN §6 C07"),
  "C08": ("exploration", "reference CORS-policy monitor + filter-less twin differential over near-miss origins",
-         "For each generated configuration and origin (exact, case variants, prefixes, suffixes, superstrings, look-alikes, null, empty) the response's Access-Control-* headers are judged by a reference policy, and disallowed/absent origins must be answered exactly like a twin container without the filter.", "Predicate calls are tapped to know what the predicate answered for this request.", "DESIGN §6 C08"),
+         "For each generated configuration and origin (exact, case variants, prefixes, suffixes, superstrings, look-alikes, null, empty) the response's Access-Control-* headers are judged by a reference policy, and disallowed/absent origins must be answered exactly like a twin container without the filter. Plus four WebServices with CORS filters of their own served concurrently (each response is judged by the addressed service's filter) and two filters configured from one shared domain list.", "Predicate calls are tapped to know what the predicate answered for this request.", "DESIGN §6 C08"),
  "C09": ("exploration", "reference preflight monitor + twin probing of routable methods + per-filter history (sequential and concurrent, race detector on)",
-         "Preflights over generated method/header requests and configurations; grants must be justified by the configuration or by methods a filter-less twin actually routes; successive preflights for different URLs on one filter value must each follow their own URL.", "Fragment of C17 when AllowedMethods is empty.", "DESIGN §6 C09"),
+         "Preflights over generated method/header requests and configurations; grants must be justified by the configuration or by methods a filter-less twin actually routes; successive preflights for different URLs on one filter value must each follow their own URL; WebServices with and without dynamic routes; origins on the request's own host under the other scheme; preflights while a route comes and goes (a grant lists the method it was asked for).", "Fragment of C17 when AllowedMethods is empty.", "DESIGN §6 C09"),
  "C10": ("fault_enumeration", "crash-point enumeration with recover()/RecoverHandler/ledger monitors and post-panic probe replay",
          "Panics are injected at every enumerated chain position (each filter before/after passing control, handler before/between/after writes, error handler) x recovery x coding x provider x entry point; monitors check single delivery to the recover handler, status/body completeness, propagation when recovery is off, compressor ledger balance, and unchanged answers to follow-up probes plus Add/Remove.",
-         "HandleWithFilter excluded (the property speaks of routed dispatch).", "DESIGN §6 C10"),
+         "HandleWithFilter excluded (the property speaks of routed dispatch). Sequences include panicking requests from a client whose connection fails on every write; the default recover report must occur exactly once per response; 300 containers configured from two goroutines at once.", "DESIGN §6 C10"),
  "C11": ("exploration", "history-vs-fresh differential monitor over generated registration histories",
          "Random histories over Add/Remove/Route/RemoveRoute/Handle on colliding root paths (also 33/70 services, once per process a container on http.DefaultServeMux); after every operation a fresh container is built from the model and both must answer a derived probe set identically via ServeHTTP and Dispatch; where an executable reference of the ServeMux registration policy says the framework owns a clean URL, ServeHTTP and Dispatch of the history-built container must answer alike; Add must never panic/exit and every registration call runs under a goroutine-state watchdog.",
          "Histories never add duplicate roots (library exits by contract).", "DESIGN §6 C11"),
  "C12": ("exploration", "Go race detector + porcupine linearizability check of client-boundary histories (per-key register over generations) + stable-probe and blocked-goroutine monitors",
          "Mutator goroutines (4, 12 or 20) Add/Remove services and Route/RemoveRoute routes with unique generations while reader goroutines probe (GET answers, and the Allow header of 405 answers on a key whose route changes its method with every generation); race reports with a go-restful frame, non-linearizable per-key histories, wrong stable answers, answers that ran a filter chain other than their own, panics and state-detected deadlocks are violations.",
-         "Schedules are not reproducible; evidence reports overlapping operations actually observed.", "DESIGN §6 C12"),
+         "Schedules are not reproducible; evidence reports overlapping operations actually observed. The OPTIONS filter's list (GET listed or not) is a presence read of the key in the same histories; half of the rounds have recovery on and an If-condition that panics for marked requests.", "DESIGN §6 C12"),
  "C13": ("exploration", "instrumenting CompressorProvider ledger + stale-reference trip-wire + porcupine per-object mutex history + release-storm blocked-goroutine detector; race detector on",
-         "Wraps sync.Pool, bounded(0,1,2,8) and a custom provider; checks exclusive ownership, exactly-once release, no use after release, no blocking (state-based), and that concurrent encoded responses / gzip request bodies decode to their own payload.",
+         "Wraps sync.Pool, bounded(0,1,2,8) and a custom provider; checks exclusive ownership, exactly-once release, no use after release, no blocking (state-based), and that concurrent encoded responses / gzip request bodies decode to their own payload; a hand-over scenario releases objects of a previous provider into a provider that has not handed out anything yet; Accept-Encoding in other letter case; a recover handler that aborts with http.ErrAbortHandler.",
          "Ledger adds after inner acquire and removes before inner release, so it cannot false-alarm on provider-internal ordering.", "DESIGN §6 C13"),
  "C14": ("exploration", "metamorphic monitor: paired dispatch of p and p/ on the same container",
          "All request kinds of C02 as pairs (p, p/) on generated tables; status, route, parameters and Allow set must be equal.", "RouterJSR311 tables without tail wildcard, default path strategy.", "DESIGN §6 C14"),
  "C15": ("fault_enumeration", "counting/failing ResponseWriter with enumerated fault positions under generated write-call sequences",
-         "For generated sequences of Response writing calls, the underlying writer accepts exactly k bytes then fails, for every k at and inside call boundaries (sampled around call boundaries and powers of two for outputs beyond 5 000 bytes); StatusCode()/ContentLength() read by a trailing filter and the returned errors are compared with what the writer received; three responses beyond 2 GiB / 4 GiB are counted.", "At most one status-setting call, first (as the property states).", "DESIGN §6 C15"),
+         "For generated sequences of Response writing calls, the underlying writer accepts exactly k bytes then fails, for every k at and inside call boundaries (sampled around call boundaries and powers of two for outputs beyond 5 000 bytes); StatusCode()/ContentLength() read by a trailing filter and the returned errors are compared with what the writer received; three responses beyond 2 GiB / 4 GiB are counted; statuses incl. 1xx/204/304; handlers that declare a Content-Length of their own; routing failures answered by the default or a custom ServiceErrorHandler; a container nested as the plain handler of an outer container whose filter observes.", "At most one status-setting call, first (as the property states).", "DESIGN §6 C15"),
  "C16": ("exploration", "round-trip monitor over generated values and corrupt-body histories, sequential and concurrent (race detector on)",
-         "Values of a generated struct family are written by the framework's writer, optionally compressed, posted to an echo route and compared after ReadEntity; broken bodies must give errors, never panics, and never disturb the next well-formed request.", "Error demanded only when a stdlib reference decode shows the document incomplete/invalid.", "DESIGN §6 C16"),
+         "Values of a generated struct family are written by the framework's writer, optionally compressed, posted to an echo route and compared after ReadEntity; broken bodies must give errors, never panics, and never disturb the next well-formed request; provider instances are re-installed after having been replaced; a vendor type is sent before and after its accessor is registered.", "Error demanded only when a stdlib reference decode shows the document incomplete/invalid.", "DESIGN §6 C16"),
  "C17": ("exploration", "differential monitor: 405 Allow and OPTIONSFilter answers vs per-method probes on a filter-less twin",
-         "For generated tables on the common fragment and derived URLs, S(u) is measured by probing each method; every 405 Allow set and the OPTIONS filter's Allow/Access-Control-Allow-Methods must equal S(u); OPTIONS runs no route function; other methods untouched; OPTIONS requests for different URLs from 8 goroutines at once get the answers they get alone.", "Clean URLs only.", "DESIGN §6 C17"),
+         "For generated tables on the common fragment and derived URLs, S(u) is measured by probing each method; every 405 Allow set and the OPTIONS filter's Allow/Access-Control-Allow-Methods must equal S(u); OPTIONS runs no route function; other methods untouched; OPTIONS requests for different URLs from 8 goroutines at once get the answers they get alone; now and then a WebService whose routes are registered from one re-pathed RouteBuilder.", "Clean URLs only.", "DESIGN §6 C17"),
  "C18": ("exploration", "N-version monitor: twin containers differing only in router",
-         "Every generated request on the common fragment is sent to a CurlyRouter and a RouterJSR311 container built from the same table; status, route, parameters and Allow set must agree.",
+         "Every generated request on the common fragment is sent to a CurlyRouter and a RouterJSR311 container built from the same table; status, route, parameters and Allow set must agree; every sixth table loses a route on both twins (RemoveRoute) between two passes; every third may repeat a variable name inside a template.",
          "Known finding: ranking of crossing templates (each has a literal where the other has a variable) differs where each router follows its own key (KNOWN_FINDINGS.txt, sig c18:rank-incomparable); disagreements on identical, same-shape or comparable templates, and picks against a router's own key, are reported.", "DESIGN §6 C18"),
- "C19": ("exploration", "fresh-container reference differential over sequential histories, barrier-released concurrent batches and trace on/off; race detector on",
-         "Each request's response and handler-side observations on a long-lived, concurrently used container must equal what a fresh container gives that request alone through the same entry point.", "Reference per (request, entry point).", "DESIGN §6 C19"),
+ "C19": ("exploration", "fresh-container reference differential over sequential histories, barrier-released concurrent batches and trace on/off, with a second reference computed by other processes (reverse / shuffled request order) and a cold-start burst; race detector on",
+         "Each request's response and handler-side observations on a long-lived, concurrently used container must equal what a fresh container gives that request alone through the same entry point - in this process and, for every 5th (thorough: 25th) configuration, in two child processes of the runner that serve the multiset in reverse and shuffled order (package-level state left behind by a request would pollute an in-process reference). 16 clients send the first request through never-used route expressions at once.", "Reference per (request, entry point); child processes are the runner binary itself (os.Args[0]) in child mode.", "DESIGN §6 C19"),
 }
 
 KF = [l for l in open(os.path.join(ROOT, "KNOWN_FINDINGS.txt")) if not l.startswith("#")]
